@@ -92,9 +92,12 @@ class C05(Check):
               "exactly one of them (the unlabelled one when no label is requested); unlabelled compounds keep their value",
         "L7": "substrate / product occurrence lists follow the declared order of the stoichiometry (no sorted/set/reversed): map "
               "positions refer to atoms in that order",
+        "L11": "carry-over: build_model copies what it does not expand - parameter values, derived parameters, derived variables and reactions "
+               "without a label map keep name, function and stoichiometry, with labelled compounds read through `<name>__total` and everything else "
+               "by its own name; a reaction with a label map is expanded from its own name, function, stoichiometry, arguments and map",
         "L5": "positions beyond the substrates enter labelled: external labels are '1' x (product labels - substrate labels)",
     }
-    floors = {"L1": 1, "L2": 3, "L3": 1, "L4": 2, "L5": 1, "L6": 1, "L7": 2, "L8": 2, "L9": 1, "L10": 2}
+    floors = {"L1": 1, "L2": 3, "L3": 1, "L4": 2, "L5": 1, "L6": 1, "L7": 2, "L8": 2, "L9": 1, "L10": 2, "L11": 5}
     decided = [
         "one isotopomer reaction per substrate labelling pattern, none skipped",
         "a map shorter than the substrates' atoms is rejected before any reaction is created",
@@ -110,6 +113,119 @@ class C05(Check):
     def run(self) -> None:
         mod = self.prog.module(MOD)
         self.reactions(mod)
+        self.l11(mod)
+
+    # ------------------------------------------------------------------
+    def l11(self, mod) -> None:
+        """Carry-over in build_model, from its path summaries (one iteration per loop): what is not expanded is copied, with labelled
+        compounds read through their totals."""
+        fn = mod.func("LabelMapper.build_model")
+        q = "LabelMapper.build_model"
+
+        class I1(SymInterp):
+            loop_unroll = 1
+
+        paths = [st for st, _ in I1().run_function(fn, Sym()).returns]
+        if not paths:
+            raise AnalysisError(f"{q}: no returning path")
+        ISO = {"self.get_isotopomers()", "isotopomers"}
+
+        def parse_call(txt):
+            try:
+                c = ast.parse(txt, mode="eval").body
+            except SyntaxError:
+                return None
+            return c if isinstance(c, ast.Call) else None
+
+        def totals_of(e, src_args: str) -> bool:
+            """e is `[f'{c}__total' if c in ISO else c for c in <src_args>]` (or the mirrored test)."""
+            if not (isinstance(e, (ast.ListComp, ast.GeneratorExp)) and len(e.generators) == 1 and not e.generators[0].ifs and isinstance(e.generators[0].target, ast.Name)):
+                if isinstance(e, ast.Call) and norm(e.func) in ("list", "tuple") and len(e.args) == 1:
+                    return totals_of(e.args[0], src_args)
+                return False
+            g = e.generators[0]
+            v = g.target.id
+            if norm(g.iter) != src_args or not isinstance(e.elt, ast.IfExp):
+                return False
+            t = e.elt.test
+            if not (isinstance(t, ast.Compare) and len(t.ops) == 1 and norm(t.left) == v and norm(t.comparators[0]) in ISO):
+                return False
+            tot, plain = (e.elt.body, e.elt.orelse) if isinstance(t.ops[0], ast.In) else (e.elt.orelse, e.elt.body) if isinstance(t.ops[0], ast.NotIn) else (None, None)
+            return tot is not None and norm(plain) == v and norm(tot).replace('"', "'") in (f"f'{{{v}}}__total'", f"{v} + '__total'")
+
+        def calls(st):
+            return [c for c in (parse_call(e[1]) for e in st.events if e[0] == "call") if c is not None]
+
+        def kwmap(c, names):
+            d = {n_: norm(a) for n_, a in zip(names, c.args)}
+            d.update({k.arg: norm(k.value) for k in c.keywords if k.arg})
+            return d, {**{n_: a for n_, a in zip(names, c.args)}, **{k.arg: k.value for k in c.keywords if k.arg}}
+
+        RX = "self.model.get_raw_reactions()"
+        DP = "self.model.get_derived_parameters()"
+        DV = "self.model.get_derived_variables()"
+        verdicts = {"parameters": [], "derived-parameters": [], "derived-variables": [], "unmapped-reactions": [], "mapped-reactions": []}
+        seen = {k: 0 for k in verdicts}
+        for st in paths:
+            cs = calls(st)
+            adds = [c for c in cs if isinstance(c.func, ast.Attribute) and c.func.attr in ("add_parameters", "add_derived", "add_reaction")]
+            if not any(c.func.attr == "add_parameters" and c.args and norm(c.args[0]) == "self.model.get_parameter_values()" for c in adds):
+                verdicts["parameters"].append("a path builds the model without the base model's parameter values")
+            seen["parameters"] += 1
+            texts = " ".join(e[1] for e in st.events)
+            iter_dp = f"KEY(0, {DP})" in texts or f"VALUE(0, {DP})" in texts
+            iter_dv = f"KEY(0, {DV})" in texts or f"VALUE(0, {DV})" in texts
+            cond_rx = [(c, v) for c, v in st.conds if c.replace(" ", "") == f"self.label_maps.get(KEY(0,{RX}))isNone".replace(" ", "")]
+            for c in adds:
+                if c.func.attr == "add_derived":
+                    d, raw = kwmap(c, ["name", "fn", "args"])
+                    if d.get("name") == f"KEY(0, {DP})":
+                        seen["derived-parameters"] += 1
+                        if not (d.get("fn") == f"VALUE(0, {DP}).fn" and d.get("args") == f"VALUE(0, {DP}).args"):
+                            verdicts["derived-parameters"].append(f"a derived parameter is copied as fn={d.get('fn')}, args={d.get('args')}")
+                    if d.get("name") == f"KEY(0, {DV})":
+                        seen["derived-variables"] += 1
+                        if not (d.get("fn") == f"VALUE(0, {DV}).fn" and "args" in raw and totals_of(raw["args"], f"VALUE(0, {DV}).args")):
+                            verdicts["derived-variables"].append(f"a derived variable is copied with args `{d.get('args', '')[:70]}`: labelled compounds must be read through their `__total`, everything else by its own name")
+            if cond_rx:
+                none = cond_rx[0][1]
+                ar = [c for c in adds if c.func.attr == "add_reaction"]
+                ex = [c for c in cs if norm(c.func) == "_create_isotopomer_reactions"]
+                if none:
+                    seen["unmapped-reactions"] += 1
+                    ok = False
+                    if len(ar) == 1 and not ex:
+                        d, raw = kwmap(ar[0], ["name", "fn", "args", "stoichiometry"])
+                        ok = d.get("name") == f"KEY(0, {RX})" and d.get("fn") == f"VALUE(0, {RX}).fn" and d.get("stoichiometry") == f"VALUE(0, {RX}).stoichiometry" \
+                            and "args" in raw and totals_of(raw["args"], f"VALUE(0, {RX}).args")
+                    if not ok:
+                        verdicts["unmapped-reactions"].append("a reaction without a label map is not copied as (same name, same function, same stoichiometry, arguments with labelled compounds read through `__total`)")
+                else:
+                    seen["mapped-reactions"] += 1
+                    ok = False
+                    if len(ex) == 1 and not ar:
+                        sig = [a_.arg for a_ in mod.func("_create_isotopomer_reactions").args.args + mod.func("_create_isotopomer_reactions").args.kwonlyargs]
+                        d, _ = kwmap(ex[0], sig)
+                        ok = d.get("rate_name") == f"KEY(0, {RX})" and d.get("function") == f"VALUE(0, {RX}).fn" and d.get("stoichiometry") == f"VALUE(0, {RX}).stoichiometry" \
+                            and d.get("args") == f"VALUE(0, {RX}).args" and d.get("labelmap") == f"self.label_maps.get(KEY(0, {RX}))" and d.get("label_variables") == "self.label_variables"
+                    if not ok:
+                        verdicts["mapped-reactions"].append("a reaction with a label map is not expanded from its own (name, function, stoichiometry, arguments, map)")
+            else:
+                # the reaction loop must decide on the map for every reaction it iterates
+                if f"KEY(0, {RX})" in texts or f"VALUE(0, {RX})" in texts:
+                    verdicts["unmapped-reactions"].append("a reaction is processed without consulting self.label_maps")
+            if iter_dp is False and any(f"ITEM(0, {DP}" in texts for _ in (0,)):
+                pass
+        anchor = fn
+        for cons, probs in verdicts.items():
+            if probs:
+                self.violated("L11", MOD, q, f"carry-over {cons}", anchor, sorted(set(probs))[0],
+                              witness="a model with one reaction that has no label map (or a derived quantity over a labelled compound): the labelled model misses it / reads a name that does not exist")
+            elif seen[cons] == 0:
+                self.violated("L11", MOD, q, f"carry-over {cons}", anchor, f"no path of build_model copies the base model's {cons}",
+                              witness="a model with one reaction that has no label map: the labelled model does not contain it, totals drift from the base model")
+            else:
+                self.holds("L11", MOD, q, f"carry-over {cons}", anchor, f"copied on every path that iterates them ({seen[cons]} paths)")
 
     # ------------------------------------------------------------------
     def reactions(self, mod) -> None:
